@@ -71,8 +71,11 @@ def r10_1(ctx):
               "found %d writes of generated test text" % len(gen))
     # front-matter delimiters are re-emitted around the config
     lits = [peel(tree).a.as_str() for bb, t, tree in pushes if peel(tree).kind == "const"]
-    ctx.check(lits.count("---\n") == 1 and lits.count("\n---\n") == 1, "front-matter-delimiters", f.where(), "the front-matter is re-emitted between `---` lines",
-              "literal writes: %s" % lits)
+    lead = [x for x in lits if x and x.startswith("\n")]
+    ctx.check(lits.count("---\n") == 2 and not lead, "front-matter-delimiters", f.where(),
+              "the front-matter is re-emitted between two `---` lines; no literal write begins with a line feed (lines are written one by one)",
+              "literal writes: %s - %s" % (lits, "a line feed is written whether or not a front-matter line precedes it: an empty front-matter (`---` directly followed by "
+                                            "`---`) gains a blank line on update" if lead else "the front-matter delimiters are not written as two `---` lines"))
 
 
 def r10_2(ctx):
@@ -289,6 +292,22 @@ def r10_8(ctx):
                 return lits
         return None
     gg = [command_guard(bb) for bb in reads]
+    if reads and any(g is None for g in gg):
+        # loop / helper form (`for (_, line) in code_lines { if line.starts_with("$ ") { return true } } false`, inlined): decided by hypothesis - when
+        # every `starts_with(<start>)` / `strip_prefix(<start>)` test over the code lines answers `no`, no outcome may be read
+        from ..cfgq import explore
+        tests, lits2 = {}, []
+        for cb, ct in f.calls():
+            if mname(ct) in ("str::starts_with", "str::strip_prefix") and len(ct["args"]) > 1:
+                lit = const_str_of(prog, f, o.operand(ct["args"][1]))
+                recv = o.operand(ct["args"][0])
+                if lit is not None and any(x.kind == "field" and x.a == "code_lines" for x in recv.walk()):
+                    lits2.append(lit)
+                    if mname(ct) == "str::starts_with":
+                        tests[cb] = False
+        if tests and lits2 and set(lits2) == {start}:
+            reach = explore(f, 0, {}, assume=tests)
+            gg = [[start] if (g is None and bb not in reach) else g for g, bb in zip(gg, reads)]
     good = bool(reads) and all(g is not None and g == [start] for g in gg)
     ctx.check(good, "generator-agrees", f.loc(reads[0]) if reads else f.where(),
               "the update generator consumes an outcome only for a block with a code line starting with %r - the parser's own criterion" % start,
@@ -446,4 +465,5 @@ def run(ctx):
     from . import c01
     ctx.run_rule("R10.12", "assure_newline (how update writes every kept line back) names no character but `\\n` and calls no trimming: a kept line is written as it was read, plus at most the missing line feed [E-TABLE of constants]",
                  lambda c: c01.r1_9(c, names=("assure_newline",), tag="assure-newline-only", min_bodies=4), floor=4)
+    ctx.run_rule("R10.13", "idempotence of the exit code line: every `[n]` line the generator writes is written for n != 0 only, on every path (shared with C09 R9.10) [E-PATH]", c09.r9_10, floor=3)
     ctx.run_rule("R10.6", "consumed-line conservation in MarkdownIterator::next: each read line is stored once or consumed as a delimiter on every path [E-STATE by dataflow]", r10_6, floor=4)
